@@ -80,6 +80,7 @@ type Op struct {
 	Style string   `json:"style,omitempty"` // rename | inplace
 	N     int      `json:"n,omitempty"`     // loop: number of ticks to let the daemon's own loop produce
 	Real  bool     `json:"real,omitempty"`  // loop: real clock (thorough tier) instead of a stepped fixed clock
+	Jump  int64    `json:"jump,omitempty"`  // loop: the fixed clock jumps forward by this many seconds while the boot tick reads its entries
 	// observations
 	Ticks  []TickObs   `json:"ticks,omitempty"` // loop: what each tick of the daemon's loop did
 	Calls  [][2]string `json:"calls"`
@@ -518,8 +519,12 @@ func genExpr(r *vh.Rng, zones bool) (string, string) {
 		stream = "tz"
 		pre := []string{"TZ=", "CRON_TZ="}[r.Below(2)]
 		switch y := r.Below(10); {
-		case y == 0: // no space after the prefix: slice bounds panic
-			return pre + []string{"UTC", "", "Asia/Tokyo", "UTC\t*\t*\t*\t*\t*"}[r.Below(4)], stream
+		case y == 0: // no U+0020 anywhere: the library would slice out of range (the loader refuses the shape first)
+			tabbed := strings.NewReplacer(" ", []string{"\t", "\n", "\r", "\v", "\f", "\t\t"}[r.Below(6)]).Replace(strings.TrimSpace(e))
+			return pre + []string{"UTC", "", "Asia/Tokyo", "UTC\t*\t*\t*\t*\t*", "UTC\t0", "UTC\n0 0", "UTC" + []string{"\t", "\n", "\r", "\v", "\f"}[r.Below(5)] + tabbed,
+				"UTC\t", "\t" + tabbed}[r.Below(9)], stream
+		case y == 3: // other white space right after the zone, U+0020 only later (the zone name then contains it)
+			return pre + goodZones[r.Below(4)] + []string{"\t", "\n", "\r", "\v", "\f", "\t "}[r.Below(6)] + e, stream
 		case y == 1:
 			return pre + badZones[r.Below(len(badZones))] + " " + e, stream
 		case y == 2:
@@ -537,7 +542,7 @@ func genExpr(r *vh.Rng, zones bool) (string, string) {
 	return e, stream
 }
 
-var fixedExprs = []string{"TZ=UTC", "CRON_TZ=Asia/Tokyo", "@daily", "", "   ", "* * * *", "* * * * * *", "0 0 30 2 *", "0 0 29 2 *",
+var fixedExprs = []string{"TZ=UTC\t0", "CRON_TZ=UTC\n0 0 * * *", "TZ=UTC\t0\t0\t*\t*\t*", "TZ=UTC\t0 0 * * *", "TZ=UTC", "CRON_TZ=Asia/Tokyo", "@daily", "", "   ", "* * * *", "* * * * * *", "0 0 30 2 *", "0 0 29 2 *",
 	"0 0 31 4,6 *", "*/15 * * * 1-5", "0 0 1 1 0", "5 4 * * sun", "0 22 * * 1-5", "23 0-20/2 * * *", "0 0 , * *", "0\t0  * * *",
 	"* * * * *", "0 0 29 2 1", "0 0 */2 * 1", "0 0 1-31/1 * 1", "59 23 31 12 *", "0 0 1 1 *", "* * 31 2 *", ", * * * *", "* , * * *",
 	"TZ=UTC * * * * *", "CRON_TZ=Asia/Tokyo 0 9 * * mon-fri", "TZ= 0 0 * * *", "TZ=Nowhere/Land 0 0 * * *", "0 0 * * 7", "0 0 * * 0-6",
@@ -589,7 +594,7 @@ func genSchedVal(r *vh.Rng, zones bool) Val {
 	ex := func() Val {
 		switch x := r.Below(20); {
 		case x == 0:
-			return sv("TZ=UTC") // the cron library panics on it; the loader refuses it first
+			return sv([]string{"TZ=UTC", "TZ=UTC\t0", "CRON_TZ=UTC\n0 0 * * *"}[r.Below(3)]) // the cron library panics on these; the loader refuses them first
 		case x < 3:
 			return sv([]string{"bad", "* * * *", "61 * * * *", "", "@daily"}[r.Below(5)])
 		default:
@@ -682,6 +687,7 @@ type fakeClient struct {
 	callTimes     []time.Time // real time of each call since the last endTick
 	firstCallAt   time.Time   // real time of the first call since the last endTick
 	suspCalls     int         // entryReader.Read asks once per loaded DAG: tells that a tick has read its entries
+	onRead        func()      // run once, inside the next entryReader.Read (under mu)
 }
 
 func (f *fakeClient) status(d *dag.DAG) (*model.Status, error) {
@@ -762,6 +768,10 @@ func (f *fakeClient) IsSuspended(id string) bool {
 	f.mu.Lock()
 	defer f.mu.Unlock()
 	f.suspCalls++
+	if f.onRead != nil {
+		f.onRead()
+		f.onRead = nil
+	}
 	return f.susp[id]
 }
 
@@ -985,6 +995,14 @@ func loopRun(dir string, fc *fakeClient, lg logger.Logger, op *Op) bool {
 		for s := time.Now().Second(); s < 2 || s > 50; s = time.Now().Second() {
 			time.Sleep(200 * time.Millisecond) // keep the boot tick clear of a minute boundary
 		}
+	} else if op.Jump > 0 {
+		// the daemon boots at op.Wall; while its first tick reads the entries the clock moves forward by op.Jump
+		// seconds (stalled host, forward clock step): the loop must catch up with one tick per minute that passed
+		scheduler.VerifSetFixedTime(time.Unix(op.Wall, 0).UTC())
+		to := time.Unix(op.Wall+op.Jump, 0).UTC()
+		fc.mu.Lock()
+		fc.onRead = func() { scheduler.VerifSetFixedTime(to) }
+		fc.mu.Unlock()
 	} else {
 		clock(0)
 	}
@@ -1010,7 +1028,33 @@ func loopRun(dir string, fc *fakeClient, lg logger.Logger, op *Op) bool {
 		close(ended)
 	}()
 	prev := time.Now()
-	for k := 0; k < op.N; k++ {
+	if op.Jump > 0 {
+		// every tick of the catch-up arrives at once: one observation holds the calls of all of them
+		deadline := time.Now().Add(10 * time.Second)
+		last, n0 := time.Now(), 0
+		for time.Now().Before(deadline) {
+			fc.mu.Lock()
+			n := len(fc.calls)
+			fc.mu.Unlock()
+			if n != n0 {
+				n0, last = n, time.Now()
+			}
+			if n > 0 && !jobsRunning() && time.Since(last) > 400*time.Millisecond {
+				break
+			}
+			time.Sleep(500 * time.Microsecond)
+		}
+		t := TickObs{Ms: time.Since(prev).Milliseconds()}
+		fc.mu.Lock()
+		if n0 > 0 {
+			t.At = fc.firstCallAt.Unix()
+		}
+		fc.wall = op.Wall + op.Jump
+		fc.mu.Unlock()
+		t.Calls = fc.endTick()
+		op.Ticks = append(op.Ticks, t)
+	}
+	for k := 0; k < op.N && op.Jump == 0; k++ {
 		limit := 2 * time.Second
 		if k == 0 {
 			limit = 10 * time.Second
@@ -1203,7 +1247,7 @@ func runSeq(c *Case, rs *resume, flush func(i int, op *Op, fc *fakeClient)) {
 			lg = &evLogger{ch: make(chan string, 256)}
 			op.Ticks = nil
 			op.Alive = loopRun(dir, fc, lg, op)
-			if !op.Real {
+			if !op.Real && op.Jump == 0 {
 				// the stepped clock leaves the driver 200 ms per tick; a starved machine may miss the window once
 				stalled := false
 				for _, t := range op.Ticks {
@@ -1464,7 +1508,8 @@ func genContent0(r *vh.Rng, m0 int64, span int, allowPanic bool) Content {
 		return Content{V: &v}
 	case x == 6 && allowPanic: // shapes on which the loader used to panic (F13a unknown map key, F13b zone prefix without a space; repaired: load errors)
 		v := []Val{mv([]Val{sv("begin"), sv("* * * * *")}), sv("TZ=UTC"), lv(sv("* * * * *"), sv("CRON_TZ=UTC")),
-			mv([]Val{sv("Start"), lv(sv("* * * * *"))})}[r.Below(4)]
+			mv([]Val{sv("Start"), lv(sv("* * * * *"))}), sv("TZ=UTC\t0"), lv(sv("* * * * *"), sv("CRON_TZ=UTC\n* * * * *")),
+			mv([]Val{sv("stop"), sv("TZ=UTC\t*\t*\t*\t*\t*")})}[r.Below(7)]
 		return Content{V: &v}
 	case x < 16:
 		v := ex()
@@ -1703,6 +1748,14 @@ func fixedSeqs() []Case {
 	// F13a / F13b (repaired in /repo: the files now merely fail to load) at the initial scan and through the watcher
 	cs = append(cs, Case{Kind: "seq", Stream: "fixed-f13a", Files: []FileC{f("d0.yaml", sv("* * * * *")), f("d1.yaml", mv([]Val{sv("begin"), sv("* * * * *")}))}, Ops: ticks(2)})
 	cs = append(cs, Case{Kind: "seq", Stream: "fixed-f13b", Files: []FileC{f("d0.yaml", sv("* * * * *")), f("d1.yaml", sv("TZ=UTC"))}, Ops: ticks(2)})
+	cs = append(cs, Case{Kind: "seq", Stream: "fixed-f13b", Files: []FileC{f("d0.yaml", sv("* * * * *")), f("d1.yaml", sv("TZ=UTC\t0"))}, Ops: ticks(2)})
+	{
+		ops := ticks(1)
+		ct := Content{V: &Val{}}
+		*ct.V = sv("CRON_TZ=UTC\n0\t0\t*\t*\t*")
+		ops = append(ops, Op{Op: "write", F: "d1.yaml", C: &ct, Style: "rename"}, Op{Op: "tick", M: m + 1, Wall: (m + 1) * 60})
+		cs = append(cs, Case{Kind: "seq", Stream: "fixed-f13b-watch", Files: []FileC{f("d0.yaml", sv("* * * * *"))}, Ops: ops})
+	}
 	{
 		ops := ticks(1)
 		ct := Content{V: &Val{}}
@@ -1764,6 +1817,19 @@ func fixedSeqs() []Case {
 			files = append(files, f(fmt.Sprintf("d%d.yaml", j), mv([]Val{sv("restart"), sv(fmt.Sprintf("%d %d * * *", t.Minute(), t.Hour()))})))
 		}
 		cs = append(cs, Case{Kind: "seq", Stream: "fixed-loop", Files: files, Ops: []Op{{Op: "loop", Wall: mm*60 + 59, N: n}}})
+	}
+	// late / bunched ticks produced by the daemon's own loop: booted at hh:mm:20, the clock jumps to (hh:mm+2):10 (and,
+	// second case, by five minutes across midnight) while the boot tick is reading: the minutes that passed are caught
+	// up one tick each - d<j> restarts at minute m+j only
+	for _, jc := range [][2]int64{{m*60 + 20, 110}, {date(2024, 12, 31, 23, 57, 40), 300}} {
+		mm := jc[0] / 60
+		n := int((jc[0]+jc[1])/60-mm) + 1
+		var files []FileC
+		for j := 0; j <= n; j++ {
+			t := time.Unix((mm+int64(j))*60, 0).UTC()
+			files = append(files, f(fmt.Sprintf("d%d.yaml", j), mv([]Val{sv("restart"), sv(fmt.Sprintf("%d %d * * *", t.Minute(), t.Hour()))})))
+		}
+		cs = append(cs, Case{Kind: "seq", Stream: "fixed-loop-jump", Files: files, Ops: []Op{{Op: "loop", Wall: jc[0], N: n, Jump: jc[1]}}})
 	}
 	// good behaviour: a bad file next to a good one, an added file, an edited file, a removed file
 	{
